@@ -27,6 +27,7 @@ RULE = ("G-fs: scratch trees of 2-5 directories, import chains of 1-5 hops via .
 ASSUMPTIONS = [
     "the working directory is kept fixed between parse_file and the lookups (a relative entry spelling is relative to it)",
     "symlinked entries live in the same directory as their target (no ambiguity about 'the directory of the file')",
+    "an entry spelled through a symlinked directory and `..` denotes the file that open() finds for that spelling (physical `..`)",
 ]
 
 _UID = [1000]
@@ -163,6 +164,13 @@ def run_shard(spec):
                 os.symlink(os.path.basename(entry_abs), link)
             except OSError:
                 link = None
+            # a symlink to the entry's directory that lives somewhere else: `dirlink/..` is the parent
+            # of the *real* directory (what open() does), not the directory holding the link
+            dlink = os.path.join(sib, "dirlink")
+            try:
+                os.symlink(entry_dir, dlink)
+            except OSError:
+                dlink = None
             for cwd_kind, cwd in cwds.items():
                 obs["decoys_planted"] += plant_decoys(rng, root, tree, cwd) if cwd != "/" else 0
                 os.chdir(cwd)
@@ -177,6 +185,11 @@ def run_shard(spec):
                                                            os.path.basename(entry_abs))
                 if link:
                     spellings["symlink"] = os.path.relpath(link, cwd)
+                if dlink:
+                    via = os.path.join(os.path.relpath(dlink, cwd), "..", os.path.basename(entry_dir),
+                                       os.path.basename(entry_abs))
+                    if os.path.realpath(via) == os.path.realpath(entry_abs):
+                        spellings["symlinked-dir-dotdot"] = via
                 for sp_kind, sp in spellings.items():
                     wal(f"layout {spec['seed']}:{li} cwd={cwd_kind} spelling={sp_kind}")
                     res["evaluations"] += 1
